@@ -141,11 +141,21 @@ Fixpoint item_keys_ok (top : bool) (it : sitem) : bool :=
   | IUnknown _ => false
   end.
 
+(* every superstate block, at any depth, has at least one leaf, and its (last) `initial:` names one
+   of its own leaves *)
+Fixpoint item_valid_b (it : sitem) : bool :=
+  match it with
+  | ISuper _ _ body =>
+      negb (is_nil (leaves_of body))
+      && (match last_init body with Some i => mem i (leaves_of body) | None => true end)
+      && forallb item_valid_b body
+  | _ => true
+  end.
+
 Record forest_wf (items : list sitem) : Prop := {
   fw_keys : forallb (item_keys_ok true) items = true;
   fw_distinct : NoDup (names_of items);                      (* leaf and superstate names pairwise distinct *)
-  fw_nonempty : forall g b, find_super g items = Some b -> leaves_of b <> [];
-  fw_initial : forall g b i, find_super g items = Some b -> last_init b = Some i -> In i (leaves_of b) }.
+  fw_supers : forallb item_valid_b items = true }.
 
 Definition tentries_wf (ts : list tentry) : Prop :=
   (forall k, ~ In (TUnknownT k) ts) /\ (exists l, In (TFrom l) ts) /\ (exists t, In (TTo t) ts).
